@@ -215,6 +215,8 @@ func checkC04(c *core.Ctx) {
 			}
 		}
 	}
+	// R2d: skipping unknown fields on the stream path is Drain's job
+	iohelpDrain(c, gr.p, "R2d")
 	gr.sample(3)
 }
 
@@ -524,6 +526,10 @@ func checkC09(c *core.Ctx) {
 			}
 		}
 	}
+	// R5: SharedMemoryStrings selects iohelp readers that differ from the copying
+	// ones only in the final conversion: same guards, no index outside them
+	iohelpCheckedStrings(c, gr.p, "R5")
+	iohelpMustStrings(c, gr.p, "R5")
 	optionReadSites(c, gr)
 	gr.sample(2)
 }
